@@ -475,3 +475,20 @@ func TestVF_C18_DumpCorpus(t *testing.T) {
 		write("FuzzVF_C18_join", i, b(s.MakeJoin), u8(uint8(c18VersionIndex(s.Version))), b(s.Event), u8(0))
 	}
 }
+
+// texts cut inside / right behind an escaped surrogate pair (an event truncated between the halves of an
+// escaped emoji, or ending on the backslash that would start the second half): scanners that look ahead
+// for the second \\uXXXX must not read past the end
+func init() {
+	pair := "\\ud83d\\ude00"
+	for _, base := range []string{
+		`{"type":"m.room.message","room_id":"!r:a.example","sender":"@a:a.example","content":{"body":"` + pair,
+		`{"content":{"` + "\\uDBFF\\uDFFF",
+		`"` + pair,
+		`{"type":"m.room.message","content":{"body":"x\\\\` + pair,
+	} {
+		for cut := 0; cut <= 12 && cut < len(base); cut++ {
+			c18JSONHostile = append(c18JSONHostile, base[:len(base)-cut])
+		}
+	}
+}
